@@ -72,6 +72,12 @@ func VerifC14_HTTPReplies() {
 	handler := NewFrugalHandlerFunc(verifPingProcessor(h), NewFProtocolFactory(thrift.NewTBinaryProtocolFactoryDefault()))
 	for round := 0; round < 2; round++ {
 		kind := verifParam()
+		limited := false
+		if kind == verifReqKinds {
+			// a well-formed request from a caller that accepts at most 10 bytes back: 413, and
+			// whatever the handler buffered for it must not leak into the next reply
+			kind, limited = verifReqKnown, round == 0
+		}
 		if round == 1 {
 			kind = verifReqKnown
 		}
@@ -92,7 +98,16 @@ func VerifC14_HTTPReplies() {
 		fctx := NewFContext("cid")
 		frame := prependFrameSize(verifRequestFrame(fctx, kind, arg))
 		calls := h.calls
-		status, reply := verifHTTPCall(handler, frame, "")
+		lim := ""
+		if limited {
+			lim = "10"
+		}
+		status, reply := verifHTTPCall(handler, frame, lim)
+		if limited {
+			verifAssert(status == 413 && h.calls == calls+1, "a reply over the caller's limit is answered with 413 after the handler ran once")
+			verifReach("over-limit")
+			continue
+		}
 		if kind == verifReqTruncatedArgs && h.calls == calls && status != 200 {
 			// the frame ended inside the message header itself: the handler answers 400
 			verifAssert(status == 400, "an undecodable request is answered with 400")
